@@ -24,6 +24,8 @@ type EvalCtx struct {
 	noLocals   bool
 	localDefs  map[string]*FunDecl // contract-local definitions in scope (name -> instantiated symbol)
 	shadow     map[string]bool // bound variables / results shadowing parameter names
+	calleeFn   *ssa.Function   // ensures of a callee assumed at a call site: its local variables are existential witnesses
+	witnesses  map[string]TV   // per call: one fresh constant per callee local mentioned in its ensures
 }
 
 type evalError struct{ msg string }
@@ -233,7 +235,7 @@ func (c *EvalCtx) ident(name string) TV {
 	if tv, ok := c.vars[name]; ok {
 		if c.inOld {
 			// parameters: entry value
-			if c.x != nil {
+			if c.x != nil && !c.noLocals {
 				if p, ok := c.x.params[name]; ok {
 					return p
 				}
@@ -280,6 +282,26 @@ func (c *EvalCtx) ident(name string) TV {
 	// nullary spec function / constant
 	if f, ok := c.prog.U.Funs[name]; ok && len(f.Params) == 0 {
 		return tvTerm(SymApp(name, f.Ret))
+	}
+	// a local variable of the callee in one of its postconditions: the caller learns that some value exists for it
+	if c.calleeFn != nil && c.witnesses != nil {
+		if tv, ok := c.witnesses[name]; ok {
+			return tv
+		}
+		for _, b := range c.calleeFn.Blocks {
+			for _, in := range b.Instrs {
+				if a, ok := in.(*ssa.Alloc); ok && a.Comment == name {
+					t := a.Type().(*types.Pointer).Elem()
+					v := c.x.freshValue(c.st, "witness."+name, t)
+					tv := TV{V: v, T: t, S: c.prog.sortOf(t)}
+					if tt, isTerm := v.(*Term); isTerm {
+						c.x.assumeTypeInv(c.st, tt, t)
+					}
+					c.witnesses[name] = tv
+					return tv
+				}
+			}
+		}
 	}
 	c.fail("unknown identifier %q", name)
 	return TV{}
@@ -371,12 +393,15 @@ func (c *EvalCtx) localVar(name string) (TV, bool) {
 	if !found.Heap {
 		cell := st.allocOf[found]
 		if cell == nil {
-			c.fail("local variable %q is not live here", name)
+			return c.undefinedLocal(name, elem), true
 		}
 		return TV{V: st.cells[cell], T: elem, S: c.prog.sortOf(elem)}, true
 	}
 	p, ok := st.regs[found].(*Ptr)
 	if !ok {
+		return c.undefinedLocal(name, elem), true
+	}
+	if false {
 		c.fail("local variable %q is not live here", name)
 	}
 	v, t := x.load(st, p)
@@ -917,6 +942,23 @@ func (c *EvalCtx) call(v *ECall) TV {
 			return tvTerm(ival(t))
 		}
 		return tvTerm(t)
+	case "deref":
+		// deref(p): the struct value p points to, in the state the expression is evaluated in
+		need(1)
+		base := c.eval(v.Args[0])
+		if base.T == nil {
+			c.fail("deref of an untyped value")
+		}
+		pt, ok := base.T.Underlying().(*types.Pointer)
+		if !ok {
+			c.fail("deref of non-pointer %s", base.T)
+		}
+		p, ok := base.V.(*Ptr)
+		if !ok {
+			p = &Ptr{Ref: c.termOf(base), Elem: pt.Elem()}
+		}
+		val, t := c.x.load(c.state(), p)
+		return TV{V: val, T: t, S: c.prog.sortOf(t)}
 	case "emptyset":
 		// emptyset("T"): the empty set of T
 		need(1)
@@ -997,4 +1039,16 @@ func (c *EvalCtx) lockKey(e Expr) string {
 	}
 	base := c.eval(f.X)
 	return c.termOf(base).String() + "." + f.Name
+}
+
+// undefinedLocal: a clause that mentions a local variable on a path where the variable was never declared is evaluated
+// with an arbitrary value for it (a fresh constant): the clause then has to hold whatever the value, which is sound for
+// obligations; such clauses are written with a guard that is false on those paths.
+func (c *EvalCtx) undefinedLocal(name string, t types.Type) TV {
+	if p, ok := c.x.params[name]; ok {
+		return p // a parameter whose cell is not allocated yet: its entry value
+	}
+	st := c.state()
+	v := c.x.freshValue(st, "undef."+name, t)
+	return TV{V: v, T: t, S: c.prog.sortOf(t)}
 }
